@@ -925,8 +925,13 @@ impl<'a> Compiler<'a> {
                 self.push_instruction(Instruction::PopTable);
             }
             CardBody::DynamicCall(jump) => {
-                self.compile_subexpr(jump.args.0.as_slice())?;
-                self.current_index.push_subindex(jump.args.0.len() as u32);
+                // child 0 is the function card, the arguments follow it
+                for (i, arg) in jump.args.0.iter().enumerate() {
+                    self.current_index.push_subindex((i + 1) as u32);
+                    self.process_card(arg)?;
+                    self.current_index.pop_subindex();
+                }
+                self.current_index.push_subindex(0);
                 self.process_card(&jump.function)?;
                 self.current_index.pop_subindex();
                 self.push_instruction(Instruction::CallFunction);
